@@ -23,6 +23,22 @@ for pid, title, text in (
     CLAIMED[pid] = dict(engine="walker", technique="explicit TLA+ specification of the walker/pool checked exhaustively with TLC; trace validation of the real code under controlled goroutine schedules (synctest + gate hooks) against the same specification",
         category="model_checking", design_ref="DESIGN.md section 4.1, section 7 " + pid, text=text, note=WALK_NOTE)
 
+HIST_NOTE = ("Exhaustive: every history of the enabled actions up to depth 4 (quick) / 5 (thorough) on small templates (chain, diamond with file/sub-directory/directory outputs, alias hop + glob, check targets). "
+             "Conformance: TLC-enumerated systematic histories (full build; 1 (quick) or 2 (thorough) arbitrary actions; build) plus TLC -simulate histories of 9 actions, each stepped through the real binary; "
+             "one package, generated sh commands. Trusted: TLC, the transcription of execute.go/registry.go/handlers into GrogBuild.tla (validated by the replays themselves), sha256sum, the harness's workspace renderer.")
+HIST = {
+  "C01": "GrogBuild.tla models sources, workspace, result cache, CAS and taint over histories; TLC checks CleanEq (a successful default-mode build leaves every declared output equal to the from-scratch build of the current sources) over every history up to the depth bound; TLC-generated histories (edits of inputs, commands, fingerprints, outputs, platform, alias retargeting, glob additions/removals, byte shifts between adjacent input files, taints, perturbations) are replayed into the real grog binary and after every build the executed set, per-target hit/execute decisions, output values (value-naming bijection with the model) and the literal from-scratch build in a fresh workspace with an empty cache are compared.",
+  "C02": "TLC checks NoOpRebuild, EditLocality and AtMostOncePerBuild on the history model; every TLC-generated history is replayed and the set of executed commands of every build (shell trace) plus the per-target decision events must equal the specification's prediction -- including output paths deleted, modified, with deleted parent directories, stale directory entries, a file where a directory should be, dropped CAS blobs, both load_outputs modes, both hash algorithms, 1..4 workers.",
+  "C13": "TLC checks TaintConsumed, TaintForces, NoCacheAlwaysRuns, DisabledCacheRunsAll on histories mixing edits, taints, no-cache toggles and cache-disabled builds; replayed histories compare executed sets, taint markers left in the cache directory and decisions; dependants re-execute only when the re-executed target's output changed (const vs copy commands).",
+  "C14": "TLC checks SuccessImpliesPost and FailingCheckForcesExec on histories where an external condition checked by an output check is established by the command, cached, and destroyed (BreakExt), with commands that fail, time out, omit their output or do not establish the condition; replay compares exit status, executed sets and decisions with the specification.",
+  "C15": "The specification models load_outputs=minimal as the code intends it (hits materialise nothing; before a target executes, the outputs of its direct dependencies, aliases resolved, are materialised or the dependency re-run) and TLC checks it over histories; replayed minimal-mode histories must execute exactly the predicted commands, each at most once, succeed/fail as predicted, and every command that runs reads its dependency outputs (a stale or missing dependency output changes the produced value or fails the command, which the value bijection / status comparison detects).",
+}
+for pid, text in HIST.items():
+    CLAIMED[pid] = dict(engine="history", technique="explicit TLA+ specification of cache/workspace/pipeline over edit-build histories checked exhaustively with TLC; TLC-generated behaviours replayed step by step into the real binary with the abstract state compared after every action",
+        category="model_checking", design_ref="DESIGN.md section 4.2, section 7 " + pid, text=text, note=HIST_NOTE)
+CLAIMED["C05"]["text"] += " CLI level: TLC-generated histories with failing commands, timeouts, missing declared outputs and failing checks are replayed into the real binary: non-zero exit, failed targets named, descendants of a failure never started, independent targets built, and (through the executed sets of the follow-up builds) nothing cached for a failure."
+CLAIMED["C05"]["note"] = WALK_NOTE + " " + HIST_NOTE
+
 PENDING = "check not built yet in this round (specification and binding planned in DESIGN.md section 7); not claimed until its quick tier is registered"
 
 checks, na = [], []
@@ -57,6 +73,7 @@ manifest = {
  },
  "engines": [
    {"name": "walker", "path": "spec/Walker.tla + spec/WalkerTrace.tla + harness/walkdrv + vlib/walker_engine.py", "serves_properties": ["C03", "C04", "C05"], "kind_free_text": "exhaustive TLC over all small DAGs; trace validation of real executions under controlled schedules"},
+   {"name": "history", "path": "spec/GrogBuild.tla + spec/GrogBuildGen.tla + vlib/build_engine.py + vlib/checks/_hist.py", "serves_properties": ["C01", "C02", "C05", "C13", "C14", "C15"], "kind_free_text": "exhaustive TLC over histories; TLC-generated behaviours replayed into the real binary"},
    {"name": "labels", "path": "spec/Labels.tla + harness/cmd/h/labels.go + vlib/checks/c17.py", "serves_properties": ["C17"], "kind_free_text": "TLC-enumerated function specification, reference table replayed into the real API"},
  ],
  "checks": checks,
